@@ -253,3 +253,18 @@ PROPS["C16"] = Spec(
                  "a top-level `component` is never mixed with `services` (the guide says the one replaces the other)",
                  "--set paths never go through a non-mapping"],
 )
+
+PROPS["C15"] = Spec(
+    engine="harness.engines.runner", quick_cases=3500, thorough_cases=15000,
+    rule="a 1-4 (thorough 1-6) component application (CLI or not) whose prepare()/start() scripts register teardown callbacks (with "
+    "and without pass_exception) and service tasks between sleeps, run through run_application under virtual time with one "
+    "generated ending: run() returning None/0/1/5/127/128/255/-1/'x'/1.5 or raising; an exception while creating/preparing/"
+    "starting any component; a stalling component plus start_timeout; SIGINT/SIGTERM raised in-process from a component's phase, "
+    "from a service task before startup completes, or after startup (non-CLI); a service task crashing during or after startup; "
+    "oracle: the statement's outcome table (plain return / SystemExit(n) / SystemExit(1) + exactly one warning / the original "
+    "exception object; either documented outcome for a crash during startup), run() never called after a failed startup, every "
+    "registered teardown callback and service task finalised exactly once in reverse registration order; non-trivial = >=2 "
+    "components registering callbacks and an ending other than a clean CLI return",
+    bounds={"quick": "<=4 components, <=3 steps per phase, 4x3500", "thorough": "<=6 components, 16x15000"},
+    assumptions=COMMON_ASSUMPTIONS + ["signals are raised with signal.raise_signal in the main thread of the worker process; at most one per run"],
+)
